@@ -84,24 +84,26 @@ def clump(k, cone, island, solver, jacobian, midphase=True):
 
 
 def scenarios(thorough: bool):
-    """(name, xml) list.  The option lattice is cone x island x (solver, jacobian)."""
+    """(name, xml) list.  The option lattice is cone x island x (solver, jacobian): complete in thorough, a 4-element
+    covering sub-lattice (every value of every factor occurs) in quick."""
     out = []
-    cones = ("pyramidal", "elliptic")
-    isl = (True, False)
-    sj = (("Newton", "dense"), ("PGS", "sparse")) if not thorough else (
-        ("Newton", "dense"), ("Newton", "sparse"), ("CG", "dense"), ("CG", "sparse"), ("PGS", "dense"), ("PGS", "sparse"))
-    for cone in cones:
-        for island in isl:
-            for solver, jac in sj:
-                tag = "%s,%s,%s,%s" % (cone, "island" if island else "noisland", solver, jac)
-                out.append(("mixed[%s]" % tag, mixed(cone, island, solver, jac)))
-                out.append(("spheres%d[%s]" % (12 if thorough else 4, tag), spheres(12 if thorough else 4, cone, island, solver, jac)))
-                out.append(("chain%d[%s]" % (8 if thorough else 4, tag), chain(8 if thorough else 4, cone, island, solver, jac)))
-                out.append(("islands%d[%s]" % (4 if thorough else 2, tag), islands(4 if thorough else 2, cone, island, solver, jac)))
-                k = 6 if thorough else 3
-                out.append(("clump%d[%s]" % (k, tag), clump(k, cone, island, solver, jac)))
-                if solver == "Newton" and jac == "dense":
-                    out.append(("clump%d-nomidphase[%s]" % (k, tag), clump(k, cone, island, solver, jac, midphase=False)))
+    if thorough:
+        lattice = [(c, i, s, j) for c in ("pyramidal", "elliptic") for i in (True, False)
+                   for s in ("Newton", "CG", "PGS") for j in ("dense", "sparse")]
+    else:
+        lattice = [("pyramidal", True, "Newton", "dense"), ("elliptic", False, "PGS", "sparse"),
+                   ("pyramidal", False, "PGS", "dense"), ("elliptic", True, "CG", "sparse")]
+    for cone, island, solver, jac in lattice:
+        tag = "%s,%s,%s,%s" % (cone, "island" if island else "noisland", solver, jac)
+        out.append(("mixed[%s]" % tag, mixed(cone, island, solver, jac)))
+        out.append(("chain%d[%s]" % (8 if thorough else 4, tag), chain(8 if thorough else 4, cone, island, solver, jac)))
+        out.append(("islands%d[%s]" % (4 if thorough else 2, tag), islands(4 if thorough else 2, cone, island, solver, jac)))
+        k = 5 if thorough else 3
+        out.append(("clump%d[%s]" % (k, tag), clump(k, cone, island, solver, jac)))
+        if solver == "Newton" and jac == "dense":
+            out.append(("clump%d-nomidphase[%s]" % (k, tag), clump(k, cone, island, solver, jac, midphase=False)))
+        if thorough:
+            out.append(("spheres6[%s]" % tag, spheres(6, cone, island, solver, jac)))
     if thorough:
         out.append(("spheres20[pyramidal,island,Newton,sparse]", spheres(20, "pyramidal", True, "Newton", "sparse")))
         out.append(("spheres20[elliptic,noisland,PGS,dense]", spheres(20, "elliptic", False, "PGS", "dense")))
